@@ -1,5 +1,6 @@
 import Pfb.DriverUtil
 import Pfb.Compose.Output
+import Pfb.C03.Idem
 open Lean Pfb Pfb.Drv Pfb.Blocks Pfb.Compose
 
 def impOf (j : Json) : Except String Blocks.Imp := do
@@ -68,6 +69,22 @@ def blocksJ (st : St) : Json :=
   if hasConflict st.blocks then Json.mkObj [("err", "ConflictingImportsError")]
   else Json.mkObj [("ok", Json.arr (st.blocks.map blockJ).toArray)]
 
+def kindJ : SKind → Json
+  | .comment => "comment"
+  | .docstr => "docstr"
+  | .other => "other"
+
+def stmtJ (s : Stmt) : Json :=
+  Json.mkObj [("text", strJ s.text), ("kind", kindJ s.kind), ("is_import", Json.bool s.isImport),
+    ("imports", Json.arr ((s.imports.mergeSort impLe).map fun i => Json.arr #[strJ i.fullname, strJ i.importAs]).toArray),
+    ("line", Json.num s.line), ("col", Json.num s.col)]
+
+/-- the statement list that `Pfb.C03.reparse` predicts for the second pass (C03_reformat_idem_*) -/
+def reparseJ (ss : List Stmt) (p : C11.Params) : Json :=
+  match output (reformat ss) p with
+  | .error e => Json.mkObj [("err", errJ e)]
+  | .ok _ => Json.mkObj [("ok", Json.arr ((Pfb.C03.reparse (Pfb.C03.c11Fmt p) (reformat ss).blocks).map stmtJ).toArray)]
+
 def scanOf (j : Json) : Except String (Scan × List Blocks.Imp × List Blocks.Imp × Flags) := do
   let unused ← (← jarr j "unused").toList.mapM fun u => do
     let a ← u.getArr?
@@ -92,6 +109,7 @@ def handle (j : Json) : Except String Json := do
   let p ← paramsOf (← jobj j "params")
   match op with
   | "reformat_text" => pure (outJ (reformat ss) p)
+  | "reparse_text" => pure (reparseJ ss p)
   | "tidy_text" =>
     let unused ← (← jarr j "unused").toList.mapM fun u => do
       let a ← u.getArr?
